@@ -102,8 +102,14 @@ def run(ck, facts, tier):
     pa = need_body(ck, facts, R, "chalk_solve::clauses::push_auto_trait_impls")
     if ct and pa:
         th = facts.thir("chalk_solve::clauses::constituent_types")
-        ms = enum_matches(th, TYKIND)
-        pm = enum_matches(facts.thir(pa.key), TYKIND)
+        # the table is the outermost match on TyKind (a nested `matches!` on a field's kind is not it)
+        ms = enum_matches(th, TYKIND)[:1]
+        pm = enum_matches(facts.thir(pa.key), TYKIND)[:1]
+        # nothing may be dropped from the constituents: element-dropping adaptors in constituent_types are an audited inventory
+        from kit import adaptor_inventory
+        adaptor_inventory(ck, R, facts, "chalk_solve", lambda k: k == "chalk_solve::clauses::constituent_types",
+                          {("chalk_solve::clauses::constituent_types", "filter_map"): (1, "picks the *type* parameters of a substitution (lifetimes and consts have no auto-trait obligations)")},
+                          "a constituent type left out is never required to implement the auto trait", floor=1)
         if len(ms) != 1 or len(pm) != 1:
             ck.violation(R, "matches", ct.where(), "expected one TyKind match in constituent_types and in push_auto_trait_impls")
         else:
